@@ -1,5 +1,5 @@
 (* C02 — byte fidelity: parse-then-dump reproduces the bytes the parse consumed. *)
-From VF Require Import Model.Writer Proofs.CodecCorrect Proofs.SizeProps Proofs.RoundTrip Proofs.BitsCorrect Proofs.BitRun Proofs.BitStruct Proofs.BitFidelity Gen.GeneratedOk.
+From VF Require Import Model.Writer Proofs.CodecCorrect Proofs.SizeProps Proofs.RoundTrip Proofs.BitsCorrect Proofs.BitRun Proofs.BitStruct Proofs.BitFidelity Model.Compiler Proofs.CompilerProps Proofs.CompiledRoundTrip Gen.GeneratedOk.
 Open Scope string_scope. Open Scope list_scope. Open Scope Z_scope.
 
 (* For every configuration with a proper byte order, every sequential type (`flat`: scalars, enums, pointers, arrays of all four length
@@ -14,6 +14,13 @@ Theorem parse_then_dump_is_identity : forall c, endian_ok (c_endian c) -> forall
   forall s pos ctx v p, Bytes s -> 0 <= pos -> read_ty c fuel t s pos ctx = Ok (v, p) ->
     (pos <= p /\ zlen (sread s pos (p - pos)) = p - pos) /\ forall wpos, write_ty c t v wpos = Ok (sread s pos (p - pos)).
 Proof. intros c He fuel t Hfl Hfi s pos ctx v p. exact (dump_parse_identity c He fuel t Hfl Hfi s pos ctx v p). Qed.
+(* the same through the COMPILED reader (composed with C03's theorem): what the generated statements parsed dumps to exactly the bytes they consumed *)
+Theorem compiled_parse_then_dump_is_identity : forall c, endian_ok (c_endian c) -> forall fuel nm fs p,
+  Forall (fun f => f_off f = None /\ cls' c fuel f) fs -> NoDup (map f_name fs) -> bsize c fs <= 9223372036854775807 -> compile_plan c false fs = Ok p ->
+  flat (TStruct nm fs false) = true -> fid_ty c (TStruct nm fs false) = true ->
+  forall s pos v q, Bytes s -> 0 <= pos -> read_compiled c fuel false fs s pos = Ok (v, q) ->
+    (pos <= q /\ zlen (sread s pos (q - pos)) = q - pos) /\ forall wpos, write_ty c (TStruct nm fs false) v wpos = Ok (sread s pos (q - pos)).
+Proof. exact compiled_dump_parse_identity. Qed.
 (* at the public entry points: dumps(T(data)) is the consumed prefix of data *)
 Theorem dumps_of_parsed : forall c, endian_ok (c_endian c) -> forall t, flat t = true -> fid_ty c t = true ->
   forall s v p, Bytes s -> read_top c t s 0 = Ok (v, p) -> dumps c t v = Ok (firstn (Z.to_nat p) s) /\ p <= zlen s.
@@ -46,6 +53,7 @@ Theorem int_decode_then_encode : forall e signed bs, (e = LE \/ e = BE) -> Bytes
 Proof. exact int_bytes_roundtrip. Qed.
 
 Print Assumptions parse_then_dump_is_identity.
+Print Assumptions compiled_parse_then_dump_is_identity.
 Print Assumptions dumps_of_parsed.
 Print Assumptions bit_fields_dump_of_parsed_little.
 Print Assumptions bit_fields_dump_of_parsed_big.
